@@ -96,7 +96,21 @@ def make_pair(rng, *, shared_terminal_ids=False, mixed_ids=False, term_conflict=
                             e = Edge(N[k], att)
                         rhs.add_edge(e)
                     else:
-                        rhs.add_edge(Edge(N[k], att, id=eid))
+                        # the two grammars need not label a shared edge "alike": any nonterminal of the same type will do, so two edges
+                        # labelled X, X in one grammar may be labelled A, B in the other (the NUMBER of distinct labels differs)
+                        k2 = k
+                        if which == 1 and rng.random() < 0.35:
+                            k2 = rng.choice([j for j in range(n_nt) if types[j] == types[k]])
+                        rhs.add_edge(Edge(N[k2], att, id=eid))
+                if rng.random() < 0.12:
+                    # history: a nonterminal edge added and removed again (its label stays registered in the right-hand side)
+                    try:
+                        k3 = rng.randrange(n_nt)
+                        att3 = [rng.choice([v for v in nodes if v.label == l]) for l in types[k3]]
+                        e3 = Edge(N[k3], att3, id=f's{s}stale')
+                        rhs.add_edge(e3); rhs.remove_edge(e3)
+                    except (ValueError, IndexError):
+                        pass
                 for t in range(rng.randint(0, 2)):
                     tn = rng.choice(tnames)
                     att = []
